@@ -267,6 +267,65 @@ theorem lin_transpose (s : View ν α) (m : DimensionMappings) (hw : (View.trans
         rw [← mapDimensionsToSource_eq_coords hgood hw.2, hlens]
         exact r4 idx (by rw [access_inBounds hw.2 la, hin])
 
+theorem nameAt_inj {sh : Shape ν} (hn : (namesOf sh).Nodup) {p q : Nat} (hp : p < sh.length)
+    (hq : q < sh.length) (h : nameAt sh p = nameAt sh q) : p = q := by
+  simp only [nameAt, getD_eq_getElem' hp, getD_eq_getElem' hq] at h
+  exact nodup_getElem_inj hn (by simpa using hp) (by simpa using hq) (by simpa [namesOf] using h)
+
+/-- `TensorRefMatrix` over `MatrixRefTensor` over a 2-dimensional view: row major and column
+    major sources -/
+theorem lin_matrixOf (s : View ν α) (r c : ν) (hw : (View.matrixOf s r c).WF)
+    (ih : ∀ order, s.layout = .ok (.linear order) → Lin s order) (order : List ν)
+    (hl : (View.matrixOf s r c).layout = .ok (.linear order)) : Lin (View.matrixOf s r c) order := by
+  simp only [View.WF] at hw
+  have hgood := (View.correct s hw.1).1
+  have hnod := (goodShape_iff.1 hgood).1
+  have hl2 := hw.2.1
+  have hlens := matrixOf_lens s r c hl2
+  have hlenAt : ∀ p, lenAt (View.matrixOf s r c).shape p = lenAt s.shape p := by
+    intro p; rw [lenAt_eq_lens_getD, lenAt_eq_lens_getD, hlens]
+  -- the shared conclusion once the position list of the source is known
+  have finish : ∀ (a b : Nat), a < 2 → b < 2 → Lin s [nameAt s.shape a, nameAt s.shape b] →
+      order = [nameAt (View.matrixOf s r c).shape a, nameAt (View.matrixOf s r c).shape b] →
+      Lin (View.matrixOf s r c) order := by
+    intro a b ha hb hlin ho
+    obtain ⟨P, leaf, data, h1, h2, h3, h4, h5, h6, h7⟩ := hlin
+    have hP : P = [a, b] := by
+      rw [hl2] at h1
+      match P, h1 with
+      | [x, y], _ =>
+        simp only [List.map_cons, List.map_nil, List.cons.injEq, and_true] at h4
+        have hx := h3 x (by simp)
+        have hy := h3 y (by simp)
+        rw [nameAt_inj hnod (by omega) hx h4.1, nameAt_inj hnod (by omega) hy h4.2]
+    subst hP
+    refine ⟨[a, b], leaf, data, by simp [View.shape], h2, by simp [View.shape]; omega, by simpa using ho,
+      by simpa [View.leaves] using h5, ?_, ?_⟩
+    · simp only [List.map_cons, List.map_nil, hlenAt] at h6 ⊢; exact h6
+    · intro idx hin
+      rw [hlens] at hin
+      simp only [View.specCell, List.map_cons, List.map_nil, hlenAt]
+      simpa using h7 idx hin
+  simp only [View.layout] at hl
+  cases hs : s.layout with
+  | panic k => simp [hs] at hl
+  | ok lay =>
+    simp only [hs, Outcome.ok.injEq] at hl
+    simp only [matrixRefTensorLayout] at hl
+    have hn0 : (s.shape.getD 0 (default, 0)).1 = nameAt s.shape 0 := rfl
+    have hn1 : (s.shape.getD 1 (default, 0)).1 = nameAt s.shape 1 := rfl
+    split at hl
+    · rename_i hrow
+      simp only [tensorRefMatrixLayout, DataLayout.linear.injEq] at hl
+      refine finish 0 1 (by omega) (by omega) (ih _ (by rw [hs, hrow]; rfl)) ?_
+      rw [← hl]; simp [View.shape, nameAt]
+    · split at hl
+      · rename_i hcol
+        simp only [tensorRefMatrixLayout, DataLayout.linear.injEq] at hl
+        refine finish 1 0 (by omega) (by omega) (ih _ (by rw [hs, hcol]; rfl)) ?_
+        rw [← hl]; simp [View.shape, nameAt]
+      · simp [tensorRefMatrixLayout] at hl
+
 /-- every well-formed view that claims a linear layout satisfies the invariant -/
 theorem View.layout_lin (v : View ν α) : v.WF → ∀ order, v.layout = .ok (.linear order) → Lin v order := by
   induction v using View.ind with
@@ -278,6 +337,9 @@ theorem View.layout_lin (v : View ν α) : v.WF → ∀ order, v.layout = .ok (.
     intro hw order hl
     simp only [View.layout, Outcome.ok.injEq, DataLayout.linear.injEq] at hl
     rw [← hl]; exact lin_matrix id m r c hw
+  | matrixOf s r c ih =>
+    intro hw order hl
+    exact lin_matrixOf s r c hw (ih (by simp only [View.WF] at hw; exact hw.1)) order hl
   | range s rs ih => intro _ order hl; simp [View.layout] at hl
   | mask s ms ih => intro _ order hl; simp [View.layout] at hl
   | index s p ih => intro _ order hl; simp [View.layout] at hl
